@@ -79,6 +79,42 @@ type TMK struct{ K string }
 func (k TMK) MarshalText() ([]byte, error)  { return []byte("k_" + k.K), nil }
 func (k *TMK) UnmarshalText(b []byte) error { k.K = strings.TrimPrefix(string(b), "k_"); return nil }
 
+// MInt: an integer kind with MarshalJSON (value receiver) / UnmarshalJSON: the methods win over the kind (the ,string
+// option, which goes by kind, does not quote their output)
+type MInt int
+
+func (m MInt) MarshalJSON() ([]byte, error) { return []byte(strconv.Itoa(int(m) * 2)), nil }
+func (m *MInt) UnmarshalJSON(b []byte) error {
+	n, err := strconv.Atoi(strings.Trim(string(b), `"`))
+	*m = MInt(n / 2)
+	return err
+}
+
+// TStr: a string kind with MarshalText / UnmarshalText: as a value the methods are used, as a map key encoding/json
+// writes the string itself (and reads keys through UnmarshalText)
+type TStr string
+
+func (t TStr) MarshalText() ([]byte, error) { return []byte("text:" + string(t)), nil }
+func (t *TStr) UnmarshalText(b []byte) error {
+	*t = TStr(strings.TrimPrefix(string(b), "text:"))
+	return nil
+}
+
+// TInt: an integer kind with MarshalText on the pointer receiver
+type TInt int16
+
+func (t *TInt) MarshalText() ([]byte, error) {
+	if t == nil {
+		return []byte("nil"), nil
+	}
+	return []byte("ti" + strconv.Itoa(int(*t))), nil
+}
+func (t *TInt) UnmarshalText(b []byte) error {
+	n, err := strconv.Atoi(strings.TrimPrefix(string(b), "ti"))
+	*t = TInt(n)
+	return err
+}
+
 // NAny is a named empty interface type; IFace an interface type with a method, IV and *IP implement it
 type NAny interface{}
 type IFace interface{ Tag() string }
@@ -101,6 +137,7 @@ var leafTypes = map[string]reflect.Type{
 	"nany": reflect.TypeOf((*NAny)(nil)).Elem(), "iface": reflect.TypeOf((*IFace)(nil)).Elem(),
 	"M_val": reflect.TypeOf(MVal{}), "M_ptr": reflect.TypeOf(MPtr{}), "TM_val": reflect.TypeOf(TMVal{}), "TM_ptr": reflect.TypeOf(TMPtr{}),
 	"MU_both": reflect.TypeOf(MUBoth{}), "TMK": reflect.TypeOf(TMK{}),
+	"MI": reflect.TypeOf(MInt(0)), "TS": reflect.TypeOf(TStr("")), "TI": reflect.TypeOf(TInt(0)),
 }
 
 var (
@@ -131,6 +168,10 @@ func jTypeOf(s *jShape) reflect.Type {
 			t = reflect.SliceOf(e)
 		case "array2":
 			t = reflect.ArrayOf(2, e)
+		case "array1":
+			t = reflect.ArrayOf(1, e) // stored like its element in an interface: directly when the element is a pointer or a map
+		case "mapts":
+			t = reflect.MapOf(reflect.TypeOf(TStr("")), e)
 		case "mapstr":
 			t = reflect.MapOf(reflect.TypeOf(""), e)
 		case "mapint":
@@ -236,6 +277,12 @@ func leafValues(k string) []any {
 			MUBoth{"{\"dir\": \"C:\\\\tmp\\\\\", \"msg\": \"hello big  world\"}"}}
 	case "TMK":
 		return []any{TMK{}, TMK{"key"}}
+	case "MI":
+		return []any{MInt(0), MInt(3), MInt(-21)}
+	case "TS":
+		return []any{TStr(""), TStr("k"), TStr("<b>")}
+	case "TI":
+		return []any{TInt(0), TInt(7), TInt(-300)}
 	}
 	panic("leafValues " + k)
 }
@@ -301,6 +348,13 @@ func valuesOf(s *jShape, r *rng, limit int) []reflect.Value {
 			}
 			out = append(out, sl)
 		}
+	case "array1":
+		add(zero)
+		for _, e := range elems {
+			a := reflect.New(t).Elem()
+			a.Index(0).Set(e)
+			add(a)
+		}
 	case "array2":
 		add(zero)
 		for i, e := range elems {
@@ -309,11 +363,11 @@ func valuesOf(s *jShape, r *rng, limit int) []reflect.Value {
 			a.Index(1).Set(elems[(i+1)%len(elems)])
 			add(a)
 		}
-	case "mapstr", "mapint", "maptm":
+	case "mapstr", "mapint", "maptm", "mapts":
 		add(zero)
 		add(reflect.MakeMap(t))
 		keys := map[string][]any{"mapstr": {"b", "a", "<k>", "", "10", "9", "B", "é", "a\x00", "ab"}, "mapint": {2, 10, -1, -2, -10, 0, 9, -9, 100, -100},
-			"maptm": {TMK{"x"}, TMK{""}, TMK{"a"}, TMK{"X"}}}[s.K]
+			"maptm": {TMK{"x"}, TMK{""}, TMK{"a"}, TMK{"X"}}, "mapts": {TStr("b"), TStr(""), TStr("a"), TStr("<k>"), TStr("text:z")}}[s.K]
 		// one map with every key (the order of the members is the sorted order of the key strings)
 		if len(elems) > 0 {
 			m := reflect.MakeMap(t)
@@ -341,6 +395,8 @@ func valuesOf(s *jShape, r *rng, limit int) []reflect.Value {
 					kv = reflect.ValueOf(fmt.Sprintf("k%02d", (i*7)%24))
 				case "mapint":
 					kv = reflect.ValueOf((i*7)%24 - 12)
+				case "mapts":
+					kv = reflect.ValueOf(TStr(fmt.Sprintf("s%02d", (i*7)%24)))
 				default:
 					kv = reflect.ValueOf(TMK{fmt.Sprintf("t%02d", (i*7)%24)})
 				}
